@@ -122,7 +122,7 @@ class Oracle:
         if panics < 0 or panics > kwe:
             fails.append(("fail", "%d panics reported but %d WaitEmpty callers were admitted" % (panics, kwe)))
         if kwe:
-            run = cur + (n if direct else 0) + sum(e[1] for e in qb[:k]) - kwe * size2
+            run = cur + (n if direct else 0) + sum(e[1] for e in qb[:k]) - kwe * max(size2, 0)  # Release(<0) panics, subtracts nothing
             if c == "r" and n >= 0:
                 run -= n
             if c == "f" and res == "ok":
@@ -471,7 +471,7 @@ def run_soak(cmd, lines, jobs):
                 return
             try:
                 p = subprocess.run(cmd, input=(lines[i] + "\n").encode(), stdout=subprocess.PIPE, stderr=subprocess.PIPE,
-                                   env=env, timeout=120)
+                                   env=env, timeout=240)
                 res[i] = (lines[i], p.stdout.decode(errors="replace").strip(), p.stderr.decode(errors="replace"), p.returncode)
             except subprocess.TimeoutExpired:
                 res[i] = (lines[i], "fail harness-timeout", "", -1)
